@@ -10370,7 +10370,7 @@ func (l *Lowerer) resolveNamedType(t *parser.NamedType) (ir.TypeHandle, error) {
 	}
 
 	// Texture types without type parameters (e.g., texture_depth_2d, texture_depth_2d_array)
-	if len(t.Name) >= 7 && t.Name[:7] == "texture" {
+	if strings.HasPrefix(t.Name, "texture_") {
 		imgType := l.parseTextureType(t)
 		// When encountering texture_external, generate the special param/transfer types
 		// that backends need for lowering external textures to ordinary textures.
@@ -10409,7 +10409,10 @@ func (l *Lowerer) resolveParameterizedType(t *parser.NamedType) (ir.TypeHandle, 
 		if !ok {
 			return 0, fmt.Errorf("scalar type handle %d not found in registry", scalarType)
 		}
-		scalar := typ.Inner.(ir.ScalarType)
+		scalar, ok := typ.Inner.(ir.ScalarType)
+		if !ok {
+			return 0, fmt.Errorf("%s component type must be a scalar", t.Name)
+		}
 		return l.registerType("", ir.VectorType{
 			Size:   ir.VectorSize(size),
 			Scalar: scalar,
@@ -10448,7 +10451,7 @@ func (l *Lowerer) resolveParameterizedType(t *parser.NamedType) (ir.TypeHandle, 
 	}
 
 	// Texture types: texture_2d<f32>, texture_storage_2d<rgba8unorm, write>, etc.
-	if len(t.Name) >= 7 && t.Name[:7] == "texture" {
+	if strings.HasPrefix(t.Name, "texture_") {
 		imgType := l.parseTextureType(t)
 		if imgType.Class == ir.ImageClassExternal {
 			l.generateExternalTextureTypes()
